@@ -233,8 +233,17 @@ def ref_accepts(rel: Rel, a: Value, b: Value):
     """Reference acceptance between atoms / unions of atoms / Never / Any / Annotated[atom]:
     written from the property text (a union is accepted exactly when each member is; a union
     accepts what one of its members accepts; Any both ways; Never accepted everywhere)."""
-    bs = list(flatten_values(b, unwrap_annotated=True))
-    as_ = list(flatten_values(a, unwrap_annotated=True))
+    def members(v):
+        out = []
+        for m in flatten_values(v, unwrap_annotated=True):
+            # flatten_values unwraps only a top-level Annotated: unwrap union members too
+            while isinstance(m, AnnotatedValue):
+                m = m.value
+            out.append(m)
+        return out
+
+    bs = members(b)
+    as_ = members(a)
     for y in bs:
         if isinstance(y, AnyValue):
             continue
